@@ -51,6 +51,7 @@ class Run:
         if len(f) < 2 or f[0] != "heap" or f[1] != "run":
             raise su.Malformed(line)
         self.sysd, self.spec, self.pre, self.trace, self.ops, self.sys_text = su.parse_run(f[2:])
+        self.op_texts = su._split(f[6], ";")
         su.check_run(self.sysd, self.spec)
         self.tbs, self.names = su.make_system(self.sys_text, tuple(e for e, _, _ in self.spec[1]))
 
@@ -173,8 +174,9 @@ def execute(line: str):
         sims.append(alone_c)
         alone_c.trace = run.trace            # `clone(trace=…)` installs a new tracer
         spiral_seen = False
-        for side, op in run.ops:
+        for (side, op), text in zip(run.ops, run.op_texts):
             sim, alone = (orig, alone_o) if side == "o" else (clone, alone_c)
+            call = ("clone" if side == "c" else "original") + "." + text[1:]
             r = su.apply_op(sim, names, op)
             r_alone = su.apply_op(alone, names, op)
             parts.append(r + ";O" + su.observe(orig) + ";C" + su.observe(clone))
@@ -183,13 +185,13 @@ def execute(line: str):
             bad = None
             if r != r_alone:
                 bad = (side, op[1] if op[0] in "skad" else None,
-                       f"{'clone' if side == 'c' else 'original'}.{op} returned {r}, alone it returns {r_alone}")
+                       f"{call} returned {r}, alone it returns {r_alone}")
             else:
                 for s2, (x, y) in (("o", (orig, alone_o)), ("c", (clone, alone_c))):
                     d = first_difference(snapshot(x), snapshot(y))
                     if d is not None:
                         who = "original" if s2 == "o" else "clone"
-                        bad = (s2, d[0], f"after {'clone' if side == 'c' else 'original'}.{op}: {who} holds {d[1]} "
+                        bad = (s2, d[0], f"after {call}: {who} holds {d[1]} "
                                          f"(the value when the {who} is operated alone)")
                         break
             if bad is not None:
